@@ -508,6 +508,8 @@ func c17ByteFlow(s *source, e *emitter, rel, goName, leanName string) {
 					x = y.X
 				case *ast.Ident:
 					return y.Name
+				case *ast.CompositeLit:
+					return "composite-literal"
 				default:
 					return "?"
 				}
@@ -523,6 +525,7 @@ func c17ByteFlow(s *source, e *emitter, rel, goName, leanName string) {
 		localAssign := map[string]ast.Expr{} // name -> initialiser
 		defers := 0
 		var ret ast.Expr
+		var rets []ast.Expr
 		ast.Inspect(fd.Body, func(n ast.Node) bool {
 			switch x := n.(type) {
 			case *ast.DeclStmt:
@@ -556,6 +559,7 @@ func c17ByteFlow(s *source, e *emitter, rel, goName, leanName string) {
 			case *ast.ReturnStmt:
 				if len(x.Results) > 0 && !isNilIdent(x.Results[0]) {
 					ret = x.Results[0]
+					rets = append(rets, x.Results[0])
 				}
 			}
 			return true
@@ -572,6 +576,8 @@ func c17ByteFlow(s *source, e *emitter, rel, goName, leanName string) {
 				return "import"
 			case name == "new" || name == "make" || name == "append":
 				return "builtin"
+			case name == "composite-literal":
+				return "fresh"
 			}
 			return "unknown"
 		}
@@ -597,6 +603,16 @@ func c17ByteFlow(s *source, e *emitter, rel, goName, leanName string) {
 			}
 		}
 		add("defers", fmt.Sprint(defers))
+		// non-nil results returned from somewhere else than the last return's root (an early return of a cached object ...)
+		other := 0
+		if ret != nil {
+			for _, r := range rets {
+				if root(r) != root(ret) {
+					other++
+				}
+			}
+		}
+		add("other-returns", fmt.Sprint(other))
 	}
 	e.printf("/-- where the bytes returned by `%s` (%s) live: typed flow record -/\ndef %s : List (String × String) := [", goName, rel, leanName)
 	for i, it := range items {
@@ -913,6 +929,7 @@ func init() {
 		c17StringKeyTable(s, e, "core/configcenter/unmarshaler.go", "registry", "ccRegistry")
 		c17Detail(s, e, "core/configcenter/unmarshaler.go", "Unmarshaler", "ccUnmarshaler")
 		c17ByteFlow(s, e, ef, "encodeToJSON", "encodeBufFlow")
+		c17ByteFlow(s, e, cf, "buildStructFieldsInfo", "structInfoFlow")
 		c17Forward(s, e, ef, "YamlToJson", "fwdEYamlToJson")
 		c17Forward(s, e, ef, "TomlToJson", "fwdETomlToJson")
 		c17Forward(s, e, yf, "UnmarshalYamlBytes", "fwdYamlBytes")
